@@ -82,7 +82,12 @@ Asset1 == Asset0
                 AnyA(Pol, Str(<<98>>), Lit(1)), AnyA(Hex(H2), Hex(<<1, 2>>), PN),
                 AnyA(Hex(H2), Prop(Source, "f2"), Prop(Source, "f1")),
                 Op("sub", Op("sub", Source, FeesE), AdaE(PN)),
-                Op("sub", Source, Op("add", FeesE, AdaE(PN)))}
+                Op("sub", Source, Op("add", FeesE, AdaE(PN))),
+                \* chains of three terms whose running total of a class dips below zero and comes back (x - y + z, x < y < x + z),
+                \* for lovelace and for a token next to lovelace: plain integer arithmetic, whatever the intermediate sign
+                Op("add", Op("sub", AdaE(Lit(5)), AdaE(PN)), AdaE(Op("add", PN, Lit(2000000)))),
+                Op("add", Op("sub", Op("add", AdaE(Lit(2000000)), TokE(Lit(5))), TokE(PN)), TokE(Op("add", PN, Lit(7)))),
+                Op("add", Op("sub", Op("sub", AdaE(PN), AdaE(PN)), AdaE(PM)), AdaE(Op("add", PM, PN)))}
 Mint1 == {TokE(Lit(3)), TokE(PN), AnyA(Hex(H2), Str(<<98>>), Lit(5)), Op("add", TokE(Lit(3)), AnyA(Hex(H2), Str(<<98>>), Lit(5))),
           AnyA(Pol, Str(<<99>>), PM), TokE(Op("sub", PN, PN))}
 
